@@ -17,11 +17,12 @@ def noimp(e):
 class Real:
     """A real controller plus what is needed to feed it one concrete step."""
 
-    def __init__(self, kind, mx, pat, dec=4, deck=1, tol=1 << 10, batch=1):
+    def __init__(self, kind, mx, pat, dec=4, deck=1, tol=1 << 10, batch=1, verbose=False):
         import torch
         pp = pypose()
         self.kind, self.mx, self.pat, self.dec, self.deck, self.tol, self.batch = kind, mx, pat, dec, deck, tol, batch
         self.torch = torch
+        self.verbose = verbose          # documented as cosmetic (messages on stdout); must not change any decision
         if kind == "SoP":
             class Net(torch.nn.Module):
                 def __init__(self):
@@ -32,11 +33,11 @@ class Real:
                     return self.p * x
 
             self.opt = pp.optim.LM(Net())
-            self.ctl = pp.optim.scheduler.StopOnPlateau(self.opt, steps=mx, patience=pat, decreasing=float(dec))
+            self.ctl = pp.optim.scheduler.StopOnPlateau(self.opt, steps=mx, patience=pat, decreasing=float(dec), verbose=verbose)
             self.initial = dict(self.ctl.state_dict())
         else:
-            self.ctl = pp.utils.ReduceToBason(steps=mx, patience=pat, decreasing=2.0 ** -deck, tol=float(tol))
-        self.cfg = {"kind": kind, "max": mx, "pat": pat, "dec": dec, "deck": deck, "tol": tol}
+            self.ctl = pp.utils.ReduceToBason(steps=mx, patience=pat, decreasing=2.0 ** -deck, tol=float(tol), verbose=verbose)
+        self.cfg = {"kind": kind, "max": mx, "pat": pat, "dec": dec, "deck": deck, "tol": tol, "verbose": verbose}
 
     def state(self):
         c = self.ctl
@@ -44,6 +45,12 @@ class Real:
 
     def step(self, loss, last=None, rej=0, dtype=None):
         """loss: list of ints. SoP: optimizer.last/loss/reject_count are set, then scheduler.step."""
+        import contextlib
+        import io
+        with contextlib.redirect_stdout(io.StringIO()):
+            return self._step(loss, last, rej, dtype)
+
+    def _step(self, loss, last=None, rej=0, dtype=None):
         t = self.torch
         if self.kind == "SoP":
             self.opt.last = t.tensor(float(last), dtype=t.float64)
@@ -81,7 +88,8 @@ class Real:
             def forward(self, x):
                 return self.p * x
         self.opt = pp.optim.LM(Net())
-        self.ctl = pp.optim.scheduler.StopOnPlateau(self.opt, steps=self.mx, patience=self.pat, decreasing=float(self.dec))
+        self.ctl = pp.optim.scheduler.StopOnPlateau(self.opt, steps=self.mx, patience=self.pat, decreasing=float(self.dec),
+                                                    verbose=self.verbose)
         self.ctl.load_state_dict(self.snapshot)
         # (the saved controller object lives on; it must not influence the restored one)
         ev = {"act": "restore"}
@@ -347,7 +355,7 @@ def random_traces(ctx, n, length):
         mx, pat = rng.randint(1, 40), rng.randint(1, 6)
         dec, deck, tol = rng.randint(1, 6), rng.randint(0, 4), rng.choice([1, 7, 1 << 10, 1 << 16])
         batch = 1 if kind == "SoP" else rng.choice([1, 1, 2, 3])
-        real = Real(kind, mx, pat, dec=dec, deck=deck, tol=tol, batch=batch)
+        real = Real(kind, mx, pat, dec=dec, deck=deck, tol=tol, batch=batch, verbose=(i % 3 == 2))
         ev = []
         last = [rng.randint(1 << 12, 1 << 20) for _ in range(batch)]
         dtype = rng.choice([None, torch.float64, torch.float32]) if kind == "RtB" else None
@@ -396,7 +404,7 @@ def exhaustive_traces(ctx, L):
                         continue
                     tr = run_history(kind, mx, pat, conc)
                     # end every history with a reset followed by one more step (reset restores initial)
-                    real = Real(kind, mx, pat)
+                    real = Real(kind, mx, pat, verbose=(len(traces) % 3 == 1))
                     ev = [real.step(s["loss"], s.get("last"), s.get("rej", 0)) for s in conc]
                     ev.append(real.reset())
                     ev.append(real.step(conc[0]["loss"], conc[0].get("last"), conc[0].get("rej", 0)))
@@ -459,7 +467,7 @@ def run(ctx):
         # re-run the recorded stimuli on the current tree
         real = Real(case["trace"]["cfg"]["kind"], case["trace"]["cfg"]["max"], case["trace"]["cfg"]["pat"],
                     dec=case["trace"]["cfg"].get("dec", 4) or 4, deck=case["trace"]["cfg"].get("deck", 1),
-                    tol=case["trace"]["cfg"].get("tol", 1 << 10) or (1 << 10))
+                    tol=case["trace"]["cfg"].get("tol", 1 << 10) or (1 << 10), verbose=bool(case["trace"]["cfg"].get("verbose")))
         ev = []
         for e in case["trace"]["ev"]:
             if e["act"] == "step":
